@@ -342,7 +342,7 @@ fn crc32(data: &[u8]) -> u32 {
 }
 
 /// Byron address with a derivation-path attribute (Daedalus style), assembled by hand
-fn byron_with_payload(root: &[u8], hd: &[u8], magic: Option<u32>) -> Option<Address> {
+pub fn byron_with_payload(root: &[u8], hd: &[u8], magic: Option<u32>) -> Option<Address> {
     let mut attrs = vec![(cbor::uint(1), cbor::bytes(hd))];
     if let Some(m) = magic {
         attrs.push((cbor::uint(2), cbor::bytes(&cbor::encode(&cbor::uint(m as u64)))));
